@@ -840,19 +840,27 @@ pub struct GenProfile {
     pub defaults: bool,
     /// how many distinct struct / exception definitions services may name directly
     pub arg_pool: usize,
+    /// namespace layout 0..6, or -1 = drawn from the seed
+    pub ns_style: i8,
     pub annotations: bool,
     pub recursion: bool,
 }
 
 impl GenProfile {
+    /// `name` = profile name, optionally followed by `@ns<k>` to fix the namespace layout
     pub fn named(name: &str) -> GenProfile {
+        if let Some((base, ns)) = name.split_once("@ns") {
+            let mut p = GenProfile::named(base);
+            p.ns_style = ns.parse::<i8>().unwrap_or(-1);
+            return p;
+        }
         match name {
-            "defaults" => GenProfile { files: 2, structs: 10, unions: 1, enums: 2, typedefs: 3, exceptions: 1, services: 0, defaults: true, arg_pool: 2, annotations: false, recursion: false },
-            "small" => GenProfile { files: 1, structs: 3, unions: 1, enums: 1, typedefs: 1, exceptions: 1, services: 1, defaults: true, arg_pool: 2, annotations: false, recursion: true },
+            "defaults" => GenProfile { files: 2, structs: 10, unions: 1, enums: 2, typedefs: 3, exceptions: 1, services: 0, defaults: true, arg_pool: 2, ns_style: -1, annotations: false, recursion: false },
+            "small" => GenProfile { files: 1, structs: 3, unions: 1, enums: 1, typedefs: 1, exceptions: 1, services: 1, defaults: true, arg_pool: 2, ns_style: -1, annotations: false, recursion: true },
             // many definitions, several services that reach only part of them (C17: the
             // builder's default ignore_unused mode walks the used items from the services)
-            "sparse" => GenProfile { files: 3, structs: 60, unions: 6, enums: 8, typedefs: 8, exceptions: 4, services: 6, defaults: true, arg_pool: 24, annotations: false, recursion: true },
-            _ => GenProfile { files: 3, structs: 8, unions: 2, enums: 2, typedefs: 3, exceptions: 2, services: 1, defaults: true, arg_pool: 2, annotations: true, recursion: true },
+            "sparse" => GenProfile { files: 3, structs: 60, unions: 6, enums: 8, typedefs: 8, exceptions: 4, services: 6, defaults: true, arg_pool: 24, ns_style: -1, annotations: false, recursion: true },
+            _ => GenProfile { files: 3, structs: 8, unions: 2, enums: 2, typedefs: 3, exceptions: 2, services: 1, defaults: true, arg_pool: 2, ns_style: -1, annotations: true, recursion: true },
         }
     }
 }
@@ -1119,8 +1127,24 @@ pub fn generate(seed: u64, profile: &GenProfile) -> Schema {
     let mut g = G { rng: &mut rng, s: Schema::default(), p: profile.clone(), cur: None, lit_depth: 0 };
     // files: c0 is the entry (services live there) and includes the others;
     // higher-numbered files are included by lower-numbered ones
+    // namespace layouts: none; entry file only; multi-segment paths that differ
+    // in the middle and agree again below; that differ at the top; nested prefixes
+    let drawn = g.rng.below(6);
+    let ns_style = if profile.ns_style >= 0 { profile.ns_style as u64 % 6 } else { drawn };
     for i in 0..profile.files {
-        let ns = if i == 0 && g.rng.chance(1, 2) { Some(vec!["p0".to_string(), "q0".to_string()]) } else { None };
+        let v = |xs: &[&str]| Some(xs.iter().map(|x| x.to_string()).collect::<Vec<String>>());
+        let ns = match ns_style {
+            0 | 1 => if i == 0 && ns_style == 1 { v(&["p0", "q0"]) } else { None },
+            2 => v(&["shop", &format!("m{}", i), "model"]),
+            3 => v(&[&format!("api{}", i), "common"]),
+            4 => match i {
+                0 => v(&["a0", "b0", "c0"]),
+                1 => v(&["a0", "b0"]),
+                2 => v(&["a0"]),
+                _ => None,
+            },
+            _ => if i % 2 == 0 { v(&["shop", &format!("m{}", i), "model"]) } else { None },
+        };
         g.s.files.push(FileInfo { stem: format!("c{}", i), namespace: ns, includes: vec![] });
     }
     for i in 0..profile.files {
